@@ -22,7 +22,7 @@
 //! <id> stands for an outpoint: transaction hash = id (8 bytes big endian) followed by 24 bytes 0x11, index id mod 4.
 //!
 //! Result line: <ok|err:insufficient|err:other|panic|hang> I <n> <ids of the builder's inputs, ascending>
-//!              X <get_explicit_input as value with only non-zero assets | err> F <min_fee() after success | err | ->
+//!              X <get_explicit_input as value with only non-zero assets | err> F <min_fee() of the builder after success or reported insufficiency | err | ->
 //!              G <outpoint added last by LargestFirst> <min_fee() of the builder without it> | -
 //! The oracle entries a case needs are discovered by asking the extracted model (`c08_driver serve`) which entry it
 //! misses and answering with the real builder's fee_for_input / min_fee, until the model runs through.
@@ -270,7 +270,7 @@ fn run_impl(c: &Case) -> (String, Vec<(u64, u64)>) {
     };
     let ids = match input_ids(&tb) { Some(v) => v, None => return (format!("{} inputs-unobservable", status), draws) };
     let x = match tb.get_explicit_input() { Ok(v) => show_value(&v), Err(_) => "err".into() };
-    let f = if status == "ok" { match tb.min_fee() { Ok(f) => { let f: u64 = f.into(); f.to_string() } Err(_) => "err".into() } } else { "-".into() };
+    let f = if status == "ok" || status == "err:insufficient" { match tb.min_fee() { Ok(f) => { let f: u64 = f.into(); f.to_string() } Err(_) => "err".into() } } else { "-".into() };
     // largest-first: min_fee() of the builder without the input that was added last (the smallest added one, the first
     // in offered order among equal ones), so that "stops as soon as covered" can be judged on this result
     let g = if status == "ok" { match lf_last_added(c, &ids) {
@@ -515,6 +515,34 @@ fn gen_scenario(r: &mut Rng, max_utxos: u64) -> Case {
             c.offered[last].val.coin = *r.pick(&[0u64, 1, 1000, 3000, 6000, 7000, 10_000, 1_000_000]);
         }
     }
+    // exactly covered largest-first selections: the single output is worth the k largest offered UTxOs minus min_fee() of
+    // the builder holding them, plus delta (0: k inputs cover exactly; a few lovelace: one more input is needed), with and
+    // without a set_min_fee request just below the initial minimum fee
+    if family % 15 == 11 && !multi && c.offered.len() >= 2 {
+        c.label = "eq".to_string();
+        c.strat = 0; c.cpb = 0; c.pre.clear(); c.implicit = 0; c.deposit = 0; c.donation = None;
+        c.mint = V { coin: 0, ma: None }; c.burn = V { coin: 0, ma: None };
+        for (i, u) in c.offered.iter_mut().enumerate() { u.val.ma = None; if u.addr == "r" { u.addr = "0".to_string(); } if u.val.coin < 10_000 { u.val.coin += 700_000 + i as u64; } }
+        c.outs = vec![U { id: 0, addr: "10".to_string(), val: V { coin: 1_000_000, ma: None } }];
+        if r.chance(1, 2) {
+            let f0: u64 = builder(&c, &[]).ok().and_then(|tb| tb.min_fee().ok()).map(|f| f.into()).unwrap_or(170_000);
+            c.req = Some((false, f0.saturating_sub(r.range(0, 300))));
+        }
+        let mut order: Vec<usize> = (0..c.offered.len()).collect();
+        order.sort_by(|a, b| c.offered[*b].val.coin.cmp(&c.offered[*a].val.coin).then(b.cmp(a)));   // as largest-first takes them
+        let k = r.range(1, (c.offered.len() - 1) as u64) as usize;
+        let sum: u128 = order[0..k].iter().map(|i| c.offered[*i].val.coin as u128).sum();
+        if sum < (1u128 << 62) {
+            let mut out = sum as u64;
+            for _ in 0..3 {
+                c.outs[0].val.coin = out;
+                let top: Vec<&U> = order[0..k].iter().map(|i| &c.offered[*i]).collect();
+                if let Ok(tb) = builder(&c, &top) { if let Ok(f) = tb.min_fee() { let f: u64 = f.into(); if (sum as u64) > f { out = sum as u64 - f; } } }
+            }
+            c.outs[0].val.coin = out + *r.pick(&[0u64, 0, 0, 1, 50, 100, 170, 200, 400]);
+        }
+        return c;
+    }
     // fee request of the builder: set_min_fee around the minimum fee of the initial builder (the increments of
     // fee_for_input are differences of estimates raised to it), far below / above it, or a fixed fee
     if family % 6 == 1 || c.label == "ps" && r.chance(1, 3) {
@@ -583,9 +611,13 @@ fn main() {
         let impl_path = format!("{}/impl.txt", args[2]);
         start_watchdog();
         // (a) random scenarios x random scripts
-        let n_scen = if thorough { 25000 } else { 1600 };
+        let n_scen = if thorough { 30000 } else { 2500 };
+        let mut extra_deterministic = 0;
         for _ in 0..n_scen {
-            let sc = gen_scenario(&mut r, 12);
+            let mut sc = gen_scenario(&mut r, 12);
+            // the largest-first strategies run one script per scenario: give them three scenarios for every one drawn
+            if extra_deterministic > 0 { extra_deterministic -= 1; if sc.strat % 2 == 1 && sc.label.starts_with('f') { sc.strat -= 1; } }
+            else if sc.strat % 2 == 0 { extra_deterministic = 2; }
             let mut cache = HashMap::new();
             let scripts = if sc.strat % 2 == 1 { if thorough { 8 } else { 6 } } else { 1 };
             for _ in 0..scripts {
